@@ -72,11 +72,32 @@ fn run_case(line: &str, fails: &mut Vec<(String, String)>) -> String {
             let r = catch(|| {
                 let model = m.load().map_err(|_| "err:model".to_string())?;
                 let mut tk = VaporettoTokenizer::new(model, ws).map_err(|_| "err".to_string())?;
-                let mut st = tk.token_stream(&text);
-                let mut toks = vec![];
-                while st.advance() {
-                    let k = st.token();
-                    toks.push((k.offset_from, k.offset_to, k.position, k.text.clone()));
+                let collect = |tk: &mut VaporettoTokenizer, text: &str| {
+                    let mut st = tk.token_stream(text);
+                    let mut toks = vec![];
+                    while st.advance() {
+                        let k = st.token();
+                        toks.push((k.offset_from, k.offset_to, k.position, k.text.clone()));
+                    }
+                    toks
+                };
+                let toks = collect(&mut tk, &text);
+                // Tantivy keeps one tokenizer per field and clones it per thread: the same instance (and a clone of it) sees
+                // many texts. What it answered before must not matter: texts it rejects, the empty text, line breaks, a long text
+                if c16 {
+                    let mut cl = tk.clone();
+                    for prime in ["a\0b", "", "あ\r\nい", "0123456789あいうえおかきくけこ漢字漢字漢字ｱｲｳｴｵabcdefghijklmnopqrstuvwxyz。。。"] {
+                        let _ = collect(&mut tk, prime);
+                        let again = collect(&mut tk, &text);
+                        if again != toks {
+                            fails.push(("C16".into(), format!("text {text:?} wsconst {ws:?}: a tokenizer that had processed {prime:?} before yields {again:?}, a new one {toks:?}")));
+                            break;
+                        }
+                    }
+                    let _ = collect(&mut cl, "x\0");
+                    if collect(&mut cl, &text) != toks {
+                        fails.push(("C16".into(), format!("text {text:?} wsconst {ws:?}: a clone of the tokenizer that had processed a text with NUL before yields other tokens than a new one")));
+                    }
                 }
                 Ok::<_, String>(toks)
             });
